@@ -8,7 +8,16 @@
                  call identifiers as token positions; TOKS_OBS tokens of OBSERVED
        OBSERVED  bytes of the file after the run
    (effects (A D) PLUGINS RESERVED DERIVED_BEFORE VIEWS (OUTCOME TOUCHED NAMES DERIVED_AFTER))
-       the file effects of one goderive run on one package, against [run]. *)
+       the file effects of one goderive run on one package, against [run].
+       A call is (NAME TY BASE VALID ARGS GENOK): ARGS = 0 or the list of the positions (in the
+       file's call list) of the derive calls that are its arguments.  Such a call has a typed
+       argument list (not HasUndefined) as soon as every one of those callee NAMES is defined,
+       i.e. was generated into derived.gen.go by the previous pass (for whatever types: the
+       result type comes with the plugin) or is a function of the package.  When a single view
+       is given, the loader's later answers are derived from it ([build_views]): view k has
+       the call-site names the passes over views 0..k-1 left in the files; the first load
+       ignores derived.gen.go, so there every call with ARGS is undefined.
+       A file is (CALL...) or (broken CALL...) for a file that does not parse. *)
 From Verif Require Import Base Sexp.
 From Verif.Rewrite Require Import Files Tokens Names Effects.
 Open Scope string_scope.
@@ -75,19 +84,30 @@ Definition eval_rewrite (old expected : bytes) (base : list token) (sg : subst)
 
 Definition get_bool (e : sexp) : option bool := option_map (fun z => negb (z =? 0)%Z) (get_num e).
 
-Definition get_call (pos : nat) (e : sexp) : option call :=
+Definition get_args (e : sexp) : option (list nat) :=
+  match e with
+  | Num _ => Some []
+  | L l => map_opt get_nat l
+  | _ => None
+  end.
+
+(* a plain number in the ARGS place: 0 = typed, other = undefined for ever (no argument calls known) *)
+Definition get_bool_dflt (e : sexp) : bool :=
+  match get_bool e with Some b => b | None => false end.
+
+Definition get_call (pos : nat) (e : sexp) : option (call * list nat) :=
   match e with
   | L [n; ty; b; va; un; ge] =>
-      match get_ns n, get_nat ty, get_ns b, get_bool va, get_bool un, get_bool ge with
+      match get_ns n, get_nat ty, get_ns b, get_bool va, get_args un, get_bool ge with
       | Some n', Some ty', Some b', Some va', Some un', Some ge' =>
-          Some {| c_name := n'; c_pos := pos; c_ty := ty'; c_base := b'; c_valid := va';
-                  c_undef := un'; c_genok := ge' |}
+          Some ({| c_name := n'; c_pos := pos; c_ty := ty'; c_base := b'; c_valid := va';
+                   c_undef := match un' with [] => get_bool_dflt un | _ => true end; c_genok := ge' |}, un')
       | _, _, _, _, _, _ => None
       end
   | _ => None
   end.
 
-Fixpoint get_calls (pos : nat) (l : list sexp) : option (list call) :=
+Fixpoint get_calls (pos : nat) (l : list sexp) : option (list (call * list nat)) :=
   match l with
   | [] => Some []
   | e :: r => match get_call pos e, get_calls (S pos) r with
@@ -96,11 +116,27 @@ Fixpoint get_calls (pos : nat) (l : list sexp) : option (list call) :=
               end
   end.
 
-Fixpoint get_files (i : nat) (l : list sexp) : option (list file) :=
+(* a file of the plan: does it parse, its calls with their depths *)
+Definition pfile := (bool * list (call * list nat))%type.
+
+Definition file_of (i : nat) (pf : pfile) : file :=
+  {| f_path := User i; f_toks := []; f_calls := map fst (snd pf); f_parses := fst pf |}.
+
+Fixpoint files_of (i : nat) (l : list pfile) : list file :=
+  match l with [] => [] | pf :: r => file_of i pf :: files_of (S i) r end.
+
+Fixpoint get_pfiles (l : list sexp) : option (list pfile) :=
   match l with
   | [] => Some []
-  | L cs :: r => match get_calls 0 cs, get_files (S i) r with
-                 | Some cs', Some fs => Some ({| f_path := User i; f_toks := []; f_calls := cs'; f_parses := true |} :: fs)
+  | L (Sym k :: cs) :: r =>
+      if String.eqb k "broken" then
+        match get_calls 0 cs, get_pfiles r with
+        | Some cs', Some fs => Some ((false, cs') :: fs)
+        | _, _ => None
+        end
+      else None
+  | L cs :: r => match get_calls 0 cs, get_pfiles r with
+                 | Some cs', Some fs => Some ((true, cs') :: fs)
                  | _, _ => None
                  end
   | _ => None
@@ -109,12 +145,12 @@ Fixpoint get_files (i : nat) (l : list sexp) : option (list file) :=
 Definition get_names (e : sexp) : option (list name) :=
   match e with L l => map_opt get_ns l | _ => None end.
 
-Definition get_view (plugins reserved : list name) (e : sexp) : option pkg :=
+Definition get_view (plugins reserved : list name) (e : sexp) : option (pkg * list pfile) :=
   match e with
   | L [lo; L fs] =>
-      match get_bool lo, get_files 0 fs with
-      | Some lo', Some fs' => Some {| p_loads := lo'; p_plugins := plugins; p_reserved := reserved;
-                                      p_files := fs' |}
+      match get_bool lo, get_pfiles fs with
+      | Some lo', Some fs' => Some ({| p_loads := lo'; p_plugins := plugins; p_reserved := reserved;
+                                       p_files := files_of 0 fs' |}, fs')
       | _, _ => None
       end
   | _ => None
@@ -168,23 +204,93 @@ Fixpoint changed_files (i : nat) (orig real : list (list name)) : list nat :=
   | _, _ => []
   end.
 
+(* ---------- the loader's later answers, derived from the plan ---------- *)
+
+(* the plan's files as the loader reports them when the call sites carry [ns] and the names
+   [defined] resolve to functions; a call given as undefined without argument calls stays so *)
+Definition mem_name (n : name) (l : list name) : bool := existsb (bytes_eqb n) l.
+
+Fixpoint recall (first : bool) (defined all : list name) (cs : list (call * list nat)) (ns : list name)
+  : list (call * list nat) :=
+  match cs with
+  | [] => []
+  | (c, args) :: r =>
+      let n := match ns with x :: _ => x | [] => c_name c end in
+      let und := match args with
+                 | [] => c_undef c
+                 | _ => first || existsb (fun a => negb (mem_name (nth a all []) defined)) args
+                 end in
+      ({| c_name := n; c_pos := c_pos c; c_ty := c_ty c; c_base := c_base c; c_valid := c_valid c;
+          c_undef := und; c_genok := c_genok c |}, args) :: recall first defined all r (tl ns)
+  end.
+
+Fixpoint replan (first : bool) (defined : list name) (pfs : list pfile) (names : list (list name)) : list pfile :=
+  match pfs with
+  | [] => []
+  | (ok, cs) :: r => (ok, recall first defined (hd [] names) cs (hd [] names)) :: replan first defined r (tl names)
+  end.
+
+Definition n_calls (pfs : list pfile) : nat :=
+  fold_left (fun m pf => m + List.length (snd pf)) pfs 0.
+
+(* the functions derived.gen.go defines after a pass: every name registered in a typesmap *)
+Definition generated_names (res : gres (list tmap * list name)) : list name :=
+  match res with
+  | GOk (tms, _) => flat_map (fun tm => map fst (tm_f2t tm)) tms
+  | _ => []
+  end.
+
+(* views k, k+1, ... each paired with the call-site names its naming pass leaves behind *)
+Fixpoint build_views (fuel : nat) (first : bool) (defined : list name) (fl : flags) (v0 : pkg)
+         (pfs : list pfile) (names : list (list name)) : list (pkg * list (list name)) :=
+  match fuel with
+  | 0 => []
+  | S f =>
+      let v := {| p_loads := if first then p_loads v0 else true; p_plugins := p_plugins v0;
+                  p_reserved := p_reserved v0; p_files := files_of 0 (replan first defined pfs names) |} in
+      let pass := names_pass true fl v in
+      let passed := if p_loads v then fst pass else [] in
+      let names' := map (names_after passed) (p_files v) in
+      (v, names') :: build_views f false (p_reserved v0 ++ generated_names (snd pass)) fl v0 pfs names'
+  end.
+
+(* how many views the run consumes: the shortest prefix on which it does not run out of views *)
+Fixpoint consumed (fl : flags) (views : list pkg) (n fuel : nat) : nat :=
+  match fuel with
+  | 0 => n
+  | S f => match snd (run true Trunc (fun _ => []) (fun _ => []) fl (firstn n views)) with
+           | OutOfViews => consumed fl views (S n) f
+           | _ => n
+           end
+  end.
+
+Definition passes_tag (n : nat) : string :=
+  match n with 0 | 1 => "" | 2 => "/passes=2" | _ => "/passes=3+" end.
+
 Definition count_tag (n : nat) : string :=
   match n with 0 => "0" | 1 => "1" | _ => "2+" end.
 
-Definition eval_effects (fl : flags) (dbefore : bool) (views : list pkg) (real : sexp) : verdict :=
-  match views with
+Definition eval_effects (fl : flags) (dbefore : bool) (given : list (pkg * list pfile)) (real : sexp) : verdict :=
+  match given with
   | [] => bad_line
-  | v :: _ =>
+  | (v, pfs) :: more =>
+    (* one view given: the later ones follow from the depths; several given: taken as they are *)
+    let built := match more with
+                 | [] => build_views (S (n_calls pfs)) true [] fl v pfs (map (fun f => map c_name (f_calls f)) (p_files v))
+                 | _ => map (fun g => (fst g, map (names_after (if p_loads (fst g) then fst (names_pass true fl (fst g)) else []))
+                                                  (p_files (fst g)))) given
+                 end in
+    let views := map fst built in
     let '(ops, out) := run true Trunc (fun _ => []) (fun _ => []) fl views in
-    let passed := fst (names_pass true fl v) in
+    let np := consumed fl views 1 (List.length views) in
     let orig := map (fun f => map c_name (f_calls f)) (p_files v) in
-    let m_names := map (names_after (if p_loads v then passed else [])) (p_files v) in
+    let m_names := match nth_error built (Nat.pred np) with Some b => snd b | None => orig end in
     let m_touched := touched_users ops in
     let m_dafter := derived_after dbefore ops in
     let model := L [Sym (outcome_sym out); L (map of_nat m_touched); names_sexp m_names; of_bool m_dafter] in
     let tag := "effects/" ++ (if autoname fl then "autoname" else "") ++ (if dedup fl then "dedup" else "")
                ++ (if autoname fl || dedup fl then "" else "noflags") ++ "/" ++ outcome_sym out
-               ++ "/rewritten=" ++ count_tag (List.length m_touched) in
+               ++ "/rewritten=" ++ count_tag (List.length m_touched) ++ passes_tag np in
     match real with
     | L [Sym ro; rt; L rn; rd] =>
         match map_opt get_nat (match rt with L l => l | _ => [] end), map_opt get_names rn, get_bool rd with
@@ -199,8 +305,8 @@ Definition eval_effects (fl : flags) (dbefore : bool) (views : list pkg) (real :
               && (if String.eqb ro "loaderr" then nats_eqb r_touched [] && Bool.eqb r_dafter dbefore else true)
               (* the "unreachable" panic *)
               && negb (String.eqb ro "crash")
-              (* exactly the calls renamed by the naming pass are substituted, by their new
-                 names (compared when the run ended the way the naming pass says) *)
+              (* exactly the calls renamed by the naming passes are substituted, by their new
+                 names (compared when the run ended the way the naming passes say) *)
               && (if String.eqb ro (outcome_sym out) then names2_eqb r_names m_names else true) in
             {| v_known := true; v_model_ok := sexp_eqb model real; v_spec_ok := spec;
                v_guard := match out with OutOfViews => false | _ => true end;
